@@ -28,6 +28,7 @@ class SortReg:
         self.opt_sort = {}     # key -> (sort, none, some, val)
         self.field_types = {}  # ClassV -> [(fname, TypeDesc)]
         self.opaque = {}
+        self.opaque_classes = set()   # qualnames of dataclasses deliberately kept abstract (an uninterpreted sort)
 
     # ---- annotations -------------------------------------------------------------------------
     def typedesc(self, node, module, self_cls=None) -> TypeDesc:
@@ -155,7 +156,7 @@ class SortReg:
     def sort_of_class(self, cls: ClassV):
         if cls in self.cls_sort:
             return self.cls_sort[cls]
-        if not cls.is_dataclass:
+        if not cls.is_dataclass or cls.qualname in self.opaque_classes:
             s = self.opaque_sort(cls.name)
             self.cls_sort[cls] = s
             return s
